@@ -39,8 +39,9 @@ def config_chain(quick):
 def config_nilctx(quick):
     """A nil context (and contexts with / without the values) on loggers with registered context keys."""
     c = config(True)
-    c.update(max_loggers=1, setter_args={"CtxKeys": [(1, 0), (2, 0)], "Attrs": [(51, 3)]}, acts=["Set", "LogM"], max_list=2,
-             ctx_vals=[CTX_VALS[3], CTX_VALS[1], CTX_VALS[2], CTX_VALS[0]], call_args=[[], [(51, 4)], [(1, 9)]])
+    # (context key 11 is a distinct key that prints under the name of key 1)
+    c.update(max_loggers=1, setter_args={"CtxKeys": [(1, 0), (2, 0), (11, 0)], "Attrs": [(51, 3)]}, acts=["Set", "LogM"], max_list=2,
+             ctx_vals=[CTX_VALS[3], CTX_VALS[1], CTX_VALS[2], CTX_VALS[0], [(11, 6)], [(1, 5), (11, 6)]], call_args=[[], [(51, 4)], [(1, 9)]])
     return c
 
 
@@ -64,9 +65,9 @@ def rand_config(c, seed):
             lst.append((k, -rng.randint(1, 3)) if rng.random() < 0.12 else (k, rng.randint(1, 99)))
         big.append(lst)
     r["call_args"] = c["call_args"] + [x for x in CALL_ARGS if x not in c["call_args"]] + big
-    r["ctx_vals"] = c["ctx_vals"] + [x for x in CTX_VALS if x not in c["ctx_vals"]] + [[(2, 7)], [(1, 1), (2, 2), (3, 3)]]
+    r["ctx_vals"] = c["ctx_vals"] + [x for x in CTX_VALS if x not in c["ctx_vals"]] + [[(2, 7)], [(1, 1), (2, 2), (3, 3)], [(11, 6)], [(1, 5), (11, 6), (2, 2)], [(12, 4), (2, 3)]]
     r["setter_args"] = {"Attrs": [(k, v) for k in (1, 2, 3, 4, 51, 52) for v in (1, 2)] + [(3, -1), (5, -2), (6, -4), (7, -5), (8, -7)],
-                        "Attrs1": [(2, 3), (8, 1)], "SetKV": [(1, 4), (9, 2)], "CtxKeys": [(1, 0), (2, 0), (3, 0)],
+                        "Attrs1": [(2, 3), (8, 1)], "SetKV": [(1, 4), (9, 2)], "CtxKeys": [(1, 0), (2, 0), (3, 0), (11, 0), (12, 0)],
                         "AttrsN": [(60, 100), (130, 200)],      # more than any pooled slice starts with
                         "JSONMode": [(1, 0)], "ColorMode": [(1, 0), (2, 0)]}
     r["acts"] = ["Set", "Set", "With", "With", "New", "LogM", "LogM", "LogM", "SetAttrsR", "Flags"]
